@@ -23,6 +23,7 @@ def parseToken? (s : String) : Option Token :=
   else if s.startsWith "d:" then (parseHex? (s.drop 2).toString).map .data
   else if s = "b:1" then some (.bool true)
   else if s = "b:0" then some (.bool false)
+  else if s.startsWith "u:" then (parseHex? (s.drop 2).toString).map .buffer
   else if s.startsWith "x:" then some .other
   else none
 
@@ -33,6 +34,7 @@ def showToken : Token → String
   | .int z => "i:" ++ toString z
   | .data d => "d:" ++ toHex d
   | .bool b => if b then "b:1" else "b:0"
+  | .buffer b => "u:" ++ toHex b
   | .other => "x:"
 
 def showTokens (ts : List Token) : String := "[" ++ joinWith "," (ts.map showToken) ++ "]"
@@ -86,7 +88,7 @@ def buildLine (ts : List Token) : String :=
       | .error e => "err:" ++ e.family
     let m := toHex s ++ " " ++ showCooked c ++ " " ++ re
     -- the read-back laws are claimed for opcode tokens 0x4f..0xff only (a token o:<push opcode> is not a push)
-    let inDomain := ts.all (fun t => match t with | .op n => 0x4f ≤ n | .other => false | _ => true)
+    let inDomain := ts.all (fun t => match t with | .op n => 0x4f ≤ n | .other => false | .buffer _ => false | _ => true)
     match Spec.Script.build ts with
     | none => "model-spec-mismatch build model=" ++ m ++ " spec=none"
     | some b =>
@@ -157,7 +159,10 @@ def handle (op : String) (args : List String) : Option String :=
           (toString (Spec.Script.numDecode b))
       | none => badArgs
   | "c08.opnew", [z] => some <| match parseInt? z with
-      | some z => if z = 256 then badArgs else showResNat (cscriptOpNew z)   -- 256 would grow the real table
+      | some z => showResNat (cscriptOpNew z)
+      | none => badArgs
+  | "c08.opnewseq", [zs] => some <| match parseIntList? zs with
+      | some l => joinWith "," ((cscriptOpNewSeq 256 l).map showResNat)
       | none => badArgs
   | "c08.opn.enc", [z] => some <| match parseInt? z with
       | some z => showResNat (encodeOpN z)
